@@ -131,8 +131,8 @@ FactorialLemma(L, k) ==
 \*   real part  SUM_j (-1)^j b(L,2j)   w^j          coefficients ReC(L)[j+1]
 \*   imag part  (1/x) SUM_j (-1)^j b(L,2j+1) w^j    coefficients ImC(L)[j+1]
 SignedB(L, k, j) == IF j % 2 = 0 THEN ZOfN(BCoef(L, k)) ELSE ZNeg(ZOfN(BCoef(L, k)))
-ReC(L) == [j \in 1..((L \div 2) + 1) |-> SignedB(L, 2 * (j - 1), j - 1)]
-ImC(L) == [j \in 1..((L + 1) \div 2) |-> SignedB(L, 2 * (j - 1) + 1, j - 1)]
+ReC(L) == Strict([j \in 1..((L \div 2) + 1) |-> SignedB(L, 2 * (j - 1), j - 1)])
+ImC(L) == Strict([j \in 1..((L + 1) \div 2) |-> SignedB(L, 2 * (j - 1) + 1, j - 1)])
 
 \* SUM_j c[j+1] x^j y^(deg-j)
 RECURSIVE HomEvalR(_, _, _, _)
@@ -159,10 +159,10 @@ RECURSIVE PolyMulCol(_, _, _, _)
 PolyMulCol(p, q, k, i) == IF i > k THEN ZOf(0)
                           ELSE ZAdd(ZMul(PolyCoef(p, i), PolyCoef(q, k + 1 - i)), PolyMulCol(p, q, k, i + 1))
 PolyMul(p, q) == IF Len(p) = 0 \/ Len(q) = 0 THEN <<>>
-                 ELSE [k \in 1..(Len(p) + Len(q) - 1) |-> PolyMulCol(p, q, k, 1)]
-PolyAdd(p, q) == [k \in 1..MaxI(Len(p), Len(q)) |-> ZAdd(PolyCoef(p, k), PolyCoef(q, k))]
-PolyShift(p, n) == IF Len(p) = 0 THEN <<>> ELSE [k \in 1..(Len(p) + n) |-> IF k <= n THEN ZOf(0) ELSE p[k - n]]
-PolyRev(p) == [k \in 1..Len(p) |-> p[Len(p) + 1 - k]]
+                 ELSE Strict([k \in 1..(Len(p) + Len(q) - 1) |-> PolyMulCol(p, q, k, 1)])
+PolyAdd(p, q) == Strict([k \in 1..MaxI(Len(p), Len(q)) |-> ZAdd(PolyCoef(p, k), PolyCoef(q, k))])
+PolyShift(p, n) == IF Len(p) = 0 THEN <<>> ELSE Strict([k \in 1..(Len(p) + n) |-> IF k <= n THEN ZOf(0) ELSE p[k - n]])
+PolyRev(p) == Strict([k \in 1..Len(p) |-> p[Len(p) + 1 - k]])
 RECURSIVE PolySumR(_, _)
 PolySumR(p, k) == IF k > Len(p) THEN ZOf(0) ELSE ZAdd(p[k], PolySumR(p, k + 1))
 PolySum(p) == PolySumR(p, 1)                                      \* p(1)
